@@ -456,4 +456,76 @@ theorem C02_scaleShift_moments (μ σ : ℝ) (zs : List ℝ) (hz : zs ≠ []) :
     num_add, List.length_map]
   rw [hm', hsq, mul_div_assoc, Real.sqrt_mul (sq_nonneg σ), Real.sqrt_sq_eq_abs]
 
+/-! ## the list pipeline computes the `draws` of the transform theorems -/
+
+theorem axpy_length (l : ℝ) (x acc : List ℝ) (h : x.length = acc.length) :
+    (axpy l x acc).length = acc.length := by
+  simp [axpy, h]
+
+theorem axpy_getD (l : ℝ) (x acc : List ℝ) (j : Nat) (h : x.length = acc.length) :
+    (axpy l x acc).getD j 0 = acc.getD j 0 + l * x.getD j 0 := by
+  unfold axpy
+  by_cases hj : j < acc.length
+  · have hjx : j < x.length := by omega
+    simp [List.getD_eq_getElem?_getD, List.getElem?_zipWith, List.getElem?_eq_getElem hj,
+      List.getElem?_eq_getElem hjx]
+  · have hjx : ¬ j < x.length := by omega
+    have h1 : x.length ≤ j := by omega
+    have h2 : acc.length ≤ j := by omega
+    simp [List.getD_eq_getElem?_getD, List.getElem?_zipWith, List.getElem?_eq_none h1,
+      List.getElem?_eq_none h2]
+
+theorem foldl_axpy_getD (ps : List (ℝ × List ℝ)) (n j : Nat) :
+    ∀ acc : List ℝ, acc.length = n → (∀ p ∈ ps, p.2.length = n) →
+      ((ps.foldl (fun acc (p : ℝ × List ℝ) => axpy p.1 p.2 acc) acc).getD j 0
+        = acc.getD j 0 + (ps.map fun p => p.1 * p.2.getD j 0).sum) ∧
+      (ps.foldl (fun acc (p : ℝ × List ℝ) => axpy p.1 p.2 acc) acc).length = n := by
+  induction ps with
+  | nil => intro acc h _; simp [h]
+  | cons p ps ih =>
+    intro acc hacc hz
+    have hp : p.2.length = acc.length := by rw [hacc]; exact hz p (List.mem_cons_self ..)
+    have hlen : (axpy p.1 p.2 acc).length = n := by rw [axpy_length _ _ _ hp, hacc]
+    have := ih (axpy p.1 p.2 acc) hlen (fun q hq => hz q (List.mem_cons_of_mem _ hq))
+    simp only [List.foldl_cons, List.map_cons, List.sum_cons]
+    refine ⟨?_, this.2⟩
+    rw [this.1, axpy_getD _ _ _ _ hp]; ring
+
+/-- entry j of row `Lrow · Z` -/
+theorem mulRow_getD (Lrow : List ℝ) (Z : Mat ℝ) (n j : Nat) (hz : ∀ z ∈ Z, z.length = n) :
+    (mulRow Lrow Z n).getD j 0 = ((List.zip Lrow Z).map fun p => p.1 * p.2.getD j 0).sum := by
+  have h := (foldl_axpy_getD (List.zip Lrow Z) n j (List.replicate n zero) (by simp)
+    (fun p hp => hz p.2 (List.of_mem_zip hp).2)).1
+  have e : mulRow Lrow Z n
+      = (List.zip Lrow Z).foldl (fun acc (p : ℝ × List ℝ) => axpy p.1 p.2 acc) (List.replicate n zero) := rfl
+  rw [e, h]
+  have : (List.replicate n (zero : ℝ)).getD j 0 = 0 := by
+    simp [List.getD_eq_getElem?_getD, List.getElem?_replicate, zero]
+    split <;> rfl
+  rw [this]; simp
+
+/-- **C02 (what is fed to the formula, any number of sources).** The list pipeline computes
+    exactly the `draws` of the transform theorems:
+    * `np.dot(L, Z)`: entry (r, j) of `matMul L Z` is Σ_k L_rk Z_kj;
+    * `offsets * error + value`: entry j of `scaleShift μ σ row` is row_j·σ + μ;
+    * `dataSets` pairs the r-th source with row r of `matMul (factor R) Z`, scaled and shifted. -/
+theorem C02_dataSets_entry (L Z : Mat ℝ) (r j : Nat) (hr : r < L.length)
+    (hz : ∀ z ∈ Z, z.length = (Z.getD 0 []).length) :
+    ((matMul L Z).getD r []).getD j 0
+        = ((List.zip (L.getD r []) Z).map fun p => p.1 * p.2.getD j 0).sum ∧
+    (∀ (μ σ : ℝ) (row : List ℝ), j < row.length →
+        (scaleShift μ σ row).getD j 0 = row.getD j 0 * σ + μ) ∧
+    (∀ (order : List Nat) (μ σ : Nat → ℝ) (R : Mat ℝ),
+        (dataSets order μ σ R Z).1
+          = (List.zip order (matMul (factor R).1 Z)).map fun p => scaleShift (μ p.1) (σ p.1) p.2) := by
+  refine ⟨?_, ?_, ?_⟩
+  · have hrow : (matMul L Z).getD r [] = mulRow (L.getD r []) Z (Z.getD 0 []).length := by
+      simp [matMul, List.getD_eq_getElem?_getD, List.getElem?_map, List.getElem?_eq_getElem hr]
+    rw [hrow]
+    exact mulRow_getD _ Z _ j hz
+  · intro μ σ row hj
+    simp [scaleShift, List.getD_eq_getElem?_getD, List.getElem?_map, List.getElem?_eq_getElem hj]
+  · intro order μ σ R
+    simp [dataSets]
+
 end QExPy
